@@ -345,14 +345,15 @@ func (s *Solver) Check(pc []*term.Term, extra []*term.Term, wantModel bool) (Res
 		return Unknown, nil
 	}
 	res, ok := s.readResult()
-	if !ok {
+	if !ok && s.FallbackMs <= 0 {
 		s.Stats.Unknown++
 		return Unknown, nil
 	}
-	if res == Unknown && s.FallbackMs > 0 {
-		// the incremental core gave up: ask a fresh process, which uses the full preprocessing
-		// pipeline (tactics) instead of the incremental solver
-		if s.cmd != nil {
+	if !ok || (res == Unknown && s.FallbackMs > 0) {
+		// the incremental core gave up (or its process was killed by the watchdog / died and has
+		// been restarted): ask a fresh process, which uses the full preprocessing pipeline
+		// (tactics) instead of the incremental solver
+		if ok && s.cmd != nil {
 			s.pop()
 		}
 		s.Stats.Fallbacks++
